@@ -445,11 +445,65 @@ func XProbes(name string, t *XT) []XProbe {
 	return out
 }
 
-// XPrint renders an F3x program: `enable f16;` when needed, module constants used by attribute
+// XAllLeaves returns every leaf scalar of a global of type t (a runtime-sized array contributes the
+// two elements the probes touch).
+func XAllLeaves(name string, t *XT) []XProbe {
+	var out []XProbe
+	var walk func(t *XT, path string, off int)
+	walk = func(t *XT, path string, off int) {
+		w := xScalarBytes(t.S)
+		switch t.K {
+		case XScalar:
+			out = append(out, XProbe{Path: path, Off: off, Width: w, S: t.S})
+		case XAtomic:
+			out = append(out, XProbe{Path: path, Off: off, Width: 4, Atomic: true, S: t.S})
+		case XVec:
+			for i := 0; i < t.N; i++ {
+				out = append(out, XProbe{Path: path + "." + string("xyzw"[i]), Off: off + i*w, Width: w, S: t.S})
+			}
+		case XMat:
+			cs := XMatColStride(t)
+			for c := 0; c < t.C; c++ {
+				for r := 0; r < t.N; r++ {
+					out = append(out, XProbe{Path: fmt.Sprintf("%s[%d].%s", path, c, string("xyzw"[r])), Off: off + c*cs + r*w, Width: w, S: t.S})
+				}
+			}
+		case XArray:
+			n := t.Len
+			if n == 0 {
+				n = 2
+			}
+			for i := 0; i < n; i++ {
+				walk(t.Elem, fmt.Sprintf("%s[%d]", path, i), off+i*XStride(t))
+			}
+		case XStruct:
+			offs := XOffsets(t)
+			for i, m := range t.Members {
+				walk(m.T, path+"."+m.Name, off+offs[i])
+			}
+		}
+	}
+	walk(t, name, 0)
+	return out
+}
+
+// Declaration orders of an F3x program (WGSL module-scope declarations are order-independent).
+const (
+	XOrderNormal     = iota // constants, structs innermost first, variables, entry point
+	XOrderOuterFirst        // structs outermost first
+	XOrderReversed          // entry point, variables, structs outermost first, constants
+)
+
+var XOrderNames = [...]string{"normal", "outer-first", "reversed"}
+
+// XPrint renders an F3x program in the normal declaration order.
+func XPrint(globals []XGlobal) string { return XPrintOrder(globals, XOrderNormal) }
+
+// XPrintOrder renders an F3x program: `enable f16;` when needed, module constants used by attribute
 // spellings, the struct declarations (innermost first), the globals, an output buffer `o`, and a
 // compute entry point that reads the corner leaves of every global into `o` and then writes the
 // corner leaves of every read_write storage global.
-func XPrint(globals []XGlobal) string {
+func XPrintOrder(globals []XGlobal, order int) string {
 	var sb strings.Builder
 	f16 := false
 	var structs []*XT
@@ -496,8 +550,12 @@ func XPrint(globals []XGlobal) string {
 			}
 		}
 	}
-	for _, d := range before {
-		sb.WriteString(d + "\n")
+	head := sb.String()
+	sb.Reset()
+	if order != XOrderNormal {
+		for i, j := 0, len(structs)-1; i < j; i, j = i+1, j-1 {
+			structs[i], structs[j] = structs[j], structs[i]
+		}
 	}
 	for _, s := range structs {
 		fmt.Fprintf(&sb, "struct %s {\n", s.Name)
@@ -519,9 +577,8 @@ func XPrint(globals []XGlobal) string {
 		}
 		sb.WriteString("}\n")
 	}
-	for _, d := range after {
-		sb.WriteString(d + "\n")
-	}
+	secStructs := sb.String()
+	sb.Reset()
 	ob := 0
 	for _, g := range globals {
 		switch g.Space {
@@ -541,6 +598,8 @@ func XPrint(globals []XGlobal) string {
 		}
 	}
 	fmt.Fprintf(&sb, "@group(0) @binding(%d) var<storage, read_write> o: array<u32>;\n", ob)
+	secVars := sb.String()
+	sb.Reset()
 	sb.WriteString("@compute @workgroup_size(1)\nfn main() {\n")
 	k := 0
 	for _, g := range globals {
@@ -577,6 +636,41 @@ func XPrint(globals []XGlobal) string {
 			}
 		}
 	}
+	// whole-value copies from the read-only to the read_write storage global: every fixed-size
+	// top-level member (or the whole value when it is not a struct)
+	var src, dst *XGlobal
+	for i := range globals {
+		if globals[i].Space == "storage" && globals[i].RW {
+			dst = &globals[i]
+		} else if globals[i].Space == "storage" {
+			src = &globals[i]
+		}
+	}
+	if src != nil && dst != nil {
+		if t := src.T; t.K == XStruct {
+			for _, m := range t.Members {
+				if !XHasRuntime(m.T) {
+					fmt.Fprintf(&sb, "  %s.%s = %s.%s;\n", dst.Name, m.Name, src.Name, m.Name)
+				}
+			}
+		} else if !XHasRuntime(t) {
+			fmt.Fprintf(&sb, "  %s = %s;\n", dst.Name, src.Name)
+		}
+	}
 	sb.WriteString("}\n")
+	secMain := sb.String()
+	sb.Reset()
+	join := func(xs []string) string {
+		if len(xs) == 0 {
+			return ""
+		}
+		return strings.Join(xs, "\n") + "\n"
+	}
+	sb.WriteString(head)
+	if order == XOrderReversed {
+		sb.WriteString(secMain + secVars + secStructs + join(after) + join(before))
+	} else {
+		sb.WriteString(join(before) + secStructs + join(after) + secVars + secMain)
+	}
 	return sb.String()
 }
